@@ -185,8 +185,19 @@ fn world_level(c: &mut Commands, call: Call) -> bool
         Call::Despawn(e) => { let e = pool_entity(e); c.queue(move |w: &mut World| { if let Ok(em) = w.get_entity_mut(e) { em.despawn(); } }); }
         Call::RegRevoke(kind, x) => c.queue(move |w: &mut World| {
             w.react(|rc| {
-                let token = match (kind % 8, x % 2)
+                // entity-scoped registrations on a pool entity: revoking one must leave the entity's other registrations
+                // (the entity-scoped probes) alone
+                let ent = pool_entity((kind / 2) % 4);
+                let token = match (kind % 16, x % 2)
                 {
+                    (8 | 9, 0) => rc.on_revokable(entity_insertion::<CA>(ent), || {}),
+                    (8 | 9, _) => rc.on_revokable(entity_insertion::<CB>(ent), || {}),
+                    (10 | 11, 0) => rc.on_revokable(entity_mutation::<CA>(ent), || {}),
+                    (10 | 11, _) => rc.on_revokable(entity_mutation::<CB>(ent), || {}),
+                    (12 | 13, 0) => rc.on_revokable((entity_mutation::<CA>(ent), entity_insertion::<CB>(ent)), || {}),
+                    (12 | 13, _) => rc.on_revokable((entity_removal::<CA>(ent), entity_event::<u8>(ent)), || {}),
+                    (14 | 15, 0) => rc.on_revokable(entity_removal::<CB>(ent), || {}),
+                    (14 | 15, _) => rc.on_revokable(despawn(ent), || {}),
                     // other registries keyed by the same types: revoking there must leave the probes of the accessors alone
                     (4, 0) => rc.on_revokable(broadcast::<RA>(), || {}),
                     (4, _) => rc.on_revokable(broadcast::<RB>(), || {}),
@@ -793,7 +804,7 @@ pub fn decode(bytes: &[u8], max_steps: usize, max_calls: usize) -> AccCase
                 match below(byte(&mut u), 9)
                 {
                     7 => Call::WorldResReads(r),
-                    8 => Call::RegRevoke((k / 5) % 8, r),
+                    8 => Call::RegRevoke((k / 5) % 16, r),
                     0 | 1 => Call::Insert(e, c, v),
                     2 => Call::TriggerMutation(e, c),
                     3 => Call::TriggerRes(r),
